@@ -6,6 +6,7 @@ import (
 	"encoding/json"
 	"errors"
 	"fmt"
+	"hash/crc32"
 	"io"
 	"math/rand"
 	"os"
@@ -108,6 +109,33 @@ func rioPayload(i int, r rioRec) []byte {
 				break
 			}
 		}
+	case 8:
+		// crafted against the header check (uncompressed files, sizes 16 and 20 only): the payload starts with the
+		// checksum that the header would have if one altered byte re-framed its varint fields - the third marker byte
+		// with its continuation bit set (91 8d cc swallows the nil flag), or the length byte 0x14 turned into 0x8a (a
+		// longer than necessary encoding of 10 together with the 0x00 that follows). Random payloads meet such a prefix
+		// with probability 2^-32; a file format that protects its headers must not depend on that.
+		l := byte(len(b))
+		crc := func(parts ...[]byte) []byte {
+			var all []byte
+			for _, p := range parts {
+				all = append(all, p...)
+			}
+			v := uint64(crc32.Checksum(all, crc32.MakeTable(crc32.Castagnoli)))
+			out := make([]byte, binary.MaxVarintLen64)
+			return out[:binary.PutUvarint(out, v)]
+		}
+		k := crc([]byte{0x91, 0x8d, 0x4c, 0x00, l, 0x00})
+		var pre []byte
+		if l == 16 {
+			pre = crc([]byte{0x91, 0x8d, 0xcc, 0x00, l, 0x00}, k)
+		} else {
+			pre = crc([]byte{0x91, 0x8d, 0x4c, 0x00, 0x8a, 0x00}, k)
+		}
+		for j := range b {
+			b[j] = 'x'
+		}
+		copy(b, pre)
 	}
 	return b
 }
@@ -177,11 +205,18 @@ func rioGen(r *rand.Rand, mode string, thorough bool) rioCase {
 			rec.Size = pick(r, 1<<19+1, 600000)
 			rec.Pattern = pick(r, 0, 4, 5)
 		}
-		if r.Intn(7) == 0 && i != bigAt {
+		if mode == "damage" && c.Compression == recordio.CompressionTypeNone && r.Intn(5) == 0 && i != bigAt {
+			rec.Size = pick(r, 16, 20)
+			rec.Pattern = 8
+		}
+		if r.Intn(7) == 0 && i != bigAt && rec.Pattern != 8 {
 			rec.Nil = true
 		}
 		rec.Sync = !c.DirectIO && r.Intn(4) == 0
-		if mode == "control" && i > 0 && r.Intn(7) == 0 {
+		// no seek-back with the block aligned (direct I/O) writer: a rewind leaves the file offset unaligned and the
+		// next block flush fails loudly with EINVAL under real O_DIRECT (and under the simulated alignment rule).
+		// The README calls direct I/O experimental; a writer that reports an error is not judged by C04.
+		if mode == "control" && !c.DirectIO && i > 0 && r.Intn(7) == 0 {
 			rec.SeekBack = r.Intn(i + 1)
 		}
 		c.Records = append(c.Records, rec)
